@@ -75,15 +75,23 @@ impl Loader {
         self.graph.files.id_from_canonical(path)
     }
 
-    fn evaluate_path(&mut self, path: EvalString<&str>, envs: &[&dyn eval::Env]) -> FileId {
-        self.path(path.evaluate(envs))
+    fn evaluate_path(
+        &mut self,
+        path: EvalString<&str>,
+        envs: &[&dyn eval::Env],
+    ) -> anyhow::Result<FileId> {
+        let path = path.evaluate(envs);
+        if path.is_empty() {
+            bail!("empty path");
+        }
+        Ok(self.path(path))
     }
 
     fn evaluate_paths(
         &mut self,
         paths: Vec<EvalString<&str>>,
         envs: &[&dyn eval::Env],
-    ) -> Vec<FileId> {
+    ) -> anyhow::Result<Vec<FileId>> {
         paths
             .into_iter()
             .map(|path| self.evaluate_path(path, envs))
@@ -97,14 +105,14 @@ impl Loader {
         b: parse::Build,
     ) -> anyhow::Result<()> {
         let ins = graph::BuildIns {
-            ids: self.evaluate_paths(b.ins, &[&b.vars, env]),
+            ids: self.evaluate_paths(b.ins, &[&b.vars, env])?,
             explicit: b.explicit_ins,
             implicit: b.implicit_ins,
             order_only: b.order_only_ins,
             // validation is implied by the other counts
         };
         let outs = graph::BuildOuts {
-            ids: self.evaluate_paths(b.outs, &[&b.vars, env]),
+            ids: self.evaluate_paths(b.outs, &[&b.vars, env])?,
             explicit: b.explicit_outs,
         };
         let mut build = graph::Build::new(
@@ -201,7 +209,7 @@ impl Loader {
 
             match stmt {
                 Statement::Include(in_path) | Statement::Subninja(in_path) => {
-                    let id = self.evaluate_path(in_path, &[&parser.vars]);
+                    let id = self.evaluate_path(in_path, &[&parser.vars])?;
                     let (path, bytes) = self.read_file_by_id(id)?;
                     let bytes = std::rc::Rc::new(bytes);
                     let mut sub_parser = parse::Parser::new(&bytes);
@@ -211,7 +219,7 @@ impl Loader {
                 }
 
                 Statement::Default(defaults) => {
-                    let evaluated = self.evaluate_paths(defaults, &[&parser.vars]);
+                    let evaluated = self.evaluate_paths(defaults, &[&parser.vars])?;
                     self.default.extend(evaluated);
                 }
 
